@@ -39,6 +39,82 @@ def scan(data_root):
     return out
 
 
+def published_integrity(data_root):
+    """every content key that is published (has a .link) must lead to bytes that hash to the key's name;
+    returns [(key, problem)]"""
+    bad = []
+    for dirpath, dirnames, filenames in os.walk(data_root):
+        for fn in filenames:
+            if not fn.endswith(".link"):
+                continue
+            rel = os.path.relpath(os.path.join(dirpath, fn), data_root)
+            if not rel.startswith("c" + os.sep):
+                continue
+            name = unquote(fn[:-len(".link")])
+            try:
+                with open(os.path.join(dirpath, fn)) as f:
+                    target = f.read()
+                with open(target, "rb") as f:
+                    digest = hashlib.sha256(f.read()).hexdigest()
+            except OSError as e:
+                # an unusable link is C08's subject (it must not count as existing); integrity speaks about bytes that can be read
+                continue
+            if digest != name:
+                bad.append((name, "the published content key leads to bytes whose sha256 is %s" % digest))
+    return bad
+
+
+def fault_scenarios(m, scratch, rep, tier):
+    """an interrupted write of a blob, then another function producing the same bytes (dedup path): no published
+    content key may ever lead to other bytes, and every memento must read the bytes that were stored for it"""
+    import shutil
+    from . import c08, fnlib, fnmod
+    c08.install()
+    tr = fnlib.Trace()
+    spec_f = {"id": 1, "ret": {"k": "bytes", "v": "00112233445566778899aabbccddeeff" * 8}}
+    spec_g = dict(spec_f, id=2)
+    n = 0
+    for separate_meta in ((False,) if tier == "quick" else (False, True)):
+        root = os.path.join(scratch, "c07-fault-%d" % separate_meta)
+        shutil.rmtree(root, ignore_errors=True)
+        c08.fresh_env(m, root, separate_meta, False)
+        c08.FAULT.reset(root, record=True)
+        ref, _ = c08.one_call(fnmod.n0, spec_f, tr, "n0")
+        events = list(c08.FAULT.events)
+        c08.FAULT.reset(None)
+        roles = c08.classify_events(events)
+        for i, (ev, pth) in enumerate(events):
+            if ev != "open" or roles[i] not in (1, 2):
+                continue
+            for kind in ("error-mid", "crash-mid"):
+                for cname, cfn, _ in (c08.OBJ_CUTS if roles[i] == 1 else c08.LINK_CUTS):
+                    n += 1
+                    shutil.rmtree(root, ignore_errors=True)
+                    c08.fresh_env(m, root, separate_meta, False)
+                    c08.FAULT.reset(root, at=i, kind=kind, cut=cfn)
+                    try:
+                        c08.one_call(fnmod.n0, spec_f, tr, "n0")
+                    except c08.CrashNow:
+                        pass
+                    c08.FAULT.reset(None)
+                    c08.fresh_env(m, root, separate_meta, False)
+                    replay = {"fault": {"event": [ev, pth], "kind": kind, "cut": cname}, "separate_metadata_path": separate_meta}
+                    outs = []
+                    for fn, spec, fname in ((fnmod.n1, spec_g, "n1"), (fnmod.n0, spec_f, "n0"), (fnmod.n1, spec_g, "n1")):
+                        out, ran = c08.one_call(fn, spec, tr, fname)
+                        outs.append(out)
+                        for key, what in published_integrity(os.path.join(root, "data")):
+                            rep.violation("C07:published-bytes-do-not-hash-to-key:after-%s" % kind,
+                                          "after an interrupted blob write (%s, file left %s) and a later store of the same bytes: %s" % (kind, cname, what), replay)
+                            break
+                    if any(o != ref for o in outs):
+                        rep.violation("C07:memento-reads-other-bytes:after-%s" % kind,
+                                      "after an interrupted blob write, calls producing / reading the same bytes gave %r instead of %r" % (outs, ref), replay)
+        shutil.rmtree(root, ignore_errors=True)
+    c08.FAULT.reset(None)
+    return n
+
+
 def gen_history(rng, length, ids):
     ops = []
     pool = []
@@ -203,6 +279,8 @@ def run(tier, seed):
                 metas.append((config, ops, steps))
                 if len(rep.samples) < 3:
                     rep.samples.append({"config": config, "ops": ops[:8]})
+        n_fault = fault_scenarios(m, scratch, rep, tier)
+        dist["interrupted_write_points"] = n_fault
         try:
             res = C.run_coq_cases("c07", HEADER, terms, "vcase",
                                   case_type="bool * list (Z * string) * list (vop * list ((string * Z) * Z))")
@@ -223,6 +301,6 @@ def run(tier, seed):
                     "and the object table equals the model's (versions compared as creation-order patterns); non-trivial = history with an override write and a forget" % OVERRIDES,
             "distribution": dist, "traces_validated_against_impl": len(terms),
         })
-        rep.assumptions = ["no crash or I/O fault (C08's subject)", "uuid4 returns fresh versions (model: counter)",
+        rep.assumptions = ["crashes and I/O faults are C08's subject; here only: bytes reachable through a published content key after an interrupted blob or link write followed by a dedup store", "uuid4 returns fresh versions (model: counter)",
                            "the digest is an arbitrary function in the theorems; nothing assumes SHA-256 injective"]
     return rep.finish(gate)
